@@ -188,7 +188,10 @@ def _work(idx):
     os.makedirs(wd, exist_ok=True)
     ctx = Ctx(mod.ID, tier, seed, wd, flex, flex_san)
     try:
+        common.backstop_fired = 0
         r = mod.work(ctx, idx)
+        if hasattr(r, 'stats'):
+            r.stats['wallclock-backstop-fired'] += common.backstop_fired
     except Exception:
         r = WorkResult()
         r.error = 'scenario %d: %s' % (idx, traceback.format_exc())
@@ -371,6 +374,11 @@ def run_check(mod, tier, seed, only=None):
                 break
     for idx in sorted(results):
         total.merge(results[idx])
+    if os.environ.get('VERIF_DUMP_HASHES'):
+        # debugging aid for tools/determinism_proof.py: which work item diverged
+        with open(os.environ['VERIF_DUMP_HASHES'], 'w') as fh:
+            for idx in sorted(results):
+                fh.write('%s %s\n' % (idx, ' '.join(sorted(str(h) for h in results[idx].hashes))))
     explore_s = time.time() - t0
     log('%s %s: %d scenarios, %d evaluations, %d findings in %.1fs%s' % (
         mod.ID, tier, total.scenarios, total.evaluations, len(total.findings), explore_s, ' (wall cap hit)' if capped else ''))
